@@ -36,6 +36,8 @@ import Proofs.FitPayload
 import Proofs.FitAround
 import Proofs.FitTail
 import Proofs.InsertAtValid
+import Proofs.FitOpen
+import Proofs.FitNoRaise
 import Proofs.JoinSuccess
 import Proofs.Placement
 import Props.C01
@@ -1226,19 +1228,18 @@ PROVED (this section):
 * `fit_around_shape`, `fit_around_gap_valid` — every replace-around answer: gap `[to, to.end())`, a closed slice of valid
   nodes of the document, structure flag not set.
 
-FULL STATEMENTS AIMED AT (not proved):
-`fit_emits_valid_payload` : hypotheses of `fit_emits_wf` → `closableB` → the request slice cut from a valid document (closed
-  nodes valid, the children of its spine nodes carrying marks their parent allows) →
-  `openValid S sl'.openStart sl'.openEnd sl'.content` for the emitted slice `sl'`;
+* `fit_emits_valid_payload` — **every** request with a loosely valid slice (`Slice.looseValid`), under the hypotheses of
+  `fit_emits_wf` and `leafOkB`, `textStableC`, `closableB`: no hypothesis on the Fitter's state (Proofs/FitOpen.lean:
+  `VInv` is invariant under `place_nodes` for open slices as well, and the unplaced slice stays loosely valid, `UInv`).
+
+FULL STATEMENT STILL AIMED AT (not proved):
 `fit_no_raise` : … `→ sl.noPartialNode S → replaceStep S doc f t sl ≠ .error .raises`, and with
-  `fitLoop_terminates` the total `replaceStep_total`.
-What is missing for the first is the invariance of `VInv` / `validB` under `place_nodes` when the unplaced slice is open:
-the validity of `close_node_start`'s results (fill prefix + children accepted; needs the request slice's validity carried
-along the unplaced slice through `drop_from_fragment` / `open_more`) and `LevelR` for the levels `place_nodes` pushes for
-the open end (`pushOpenEnd`; their coherence is `pushOpenEnd_coh`).  The driver evaluates `validB` after **every** iteration of
-every generated request (op `fitEmit`, counter "validity invariant after every iteration"): true on all runs (about 4 900
-runs of the loop per seed, closed and open slices, bundled-family and random schemas), and the tie checks the real step's
-payload with the independent validator whenever the hypotheses of `fit_emits_valid_payload_of_inv` hold.
+  `fitLoop_terminates` the total `replaceStep_total`.  The raise sites of the loop: `content_match_at(child_count)` on the
+  node `place_nodes` re-opens (the partial-node finding), `fill_before` answering `None` inside `close_node_start`, and
+  `add_to_fragment` / frontier indexing, which `InStep` excludes.
+The driver evaluates `validB` after **every** iteration of every generated request (op `fitEmit`, counter "validity
+invariant after every iteration"): true on all runs, and the tie checks the real step's payload with the independent
+validator whenever the hypotheses of `fit_emits_valid_payload_of_inv` hold.
 
 The two invariants: `FitState.coherentB` (PM/Fitter.lean; `coherent_invariant` below, Proofs/FitCoherent.lean) — walking the
 last-child chain of `placed`, `frontier[i].ty` is the type of the node open at level `i` and `frontier[i].match` is the state of
@@ -1484,6 +1485,153 @@ example :
     let doc := Node.elem 0 [] [] [.elem 1 [] [] [.text [97, 98] []]]
     let sl : Slice := ⟨[.elem 1 [] [] [.text [120] []]], 0, 0⟩
     S.closableB = true ∧ S.checkKids sl.content = true ∧ fitEndInv S doc 2 2 sl = some true := by decide +kernel
+
+/-- **`fit_emits_valid_payload`** — the payload of every step `replace_step` emits is valid in the sense of C01
+    (`openValid`), for **every** request: whatever the range, for every request slice that is *loosely valid*
+    (`Slice.looseValid`, PM/FitGuards.lean, decidable: its closed nodes are valid, the nodes of its two open spines carry
+    canonical marks, have a type of the schema and children whose marks that type allows — what a slice cut from a valid
+    document satisfies, and what implies `openValid`: `looseValid_openValid`), on a valid document whose element nodes
+    have creatable types.  Hypotheses: those of `fit_emits_wf` (schema guards `detB`, `fillersOKB`, `wrapOKB`, `labelsOKB`;
+    the run hypothesis `unplacedWfRun`: the unplaced slice stays `Slice.wf`) and `leafOkB`, `textStableC`, `closableB`.
+    No hypothesis on the Fitter's state is left (`fitEndInv` of `fit_emits_valid_payload_of_inv` is now a theorem under
+    these hypotheses).  Proofs/FitOpen.lean: the unplaced slice stays loosely valid for its open depths (`UInv`:
+    `open_more` opens valid nodes, `UL_mono`; `drop_node` / `place_nodes` drop children on the start spine, `UL_drop`, and
+    where they lower `open_end` the sizes force the dropped node to carry the whole open end, `UL_pure_of_size`,
+    `UL_pure_or_shallow`, `UL_drop_pure`); `close_node_start` returns a valid node when it closes completely
+    (`closeNodeStart_closed_valid`) and a right-loose one with the same spine when the end stays open
+    (`closeNodeStart_open`); the take loop adds valid nodes with allowed marks, the last one possibly such an open image
+    (`takeLoop_good_UL`); the levels pushed for the open end have the matches `pushOpenEnd_coh` computes and the validity
+    of that image (`ValR_of_coh_RL`); so `place_nodes` keeps `VInv` (`placeNodes_vinv_gen`), and `close` ends the
+    argument as before (`closeFit_vinv`). -/
+theorem fit_emits_valid_payload (S : Schema) (hdet : detB S = true) (hfill : S.fillersOKB = true)
+    (hwrap : S.wrapOKB = true) (hlab : S.labelsOKB = true) (hleaf : PM.FromDom.leafOkB S = true)
+    (hts : textStableC S = true) (hcl : S.closableB = true) (doc : Node) (f t : Nat) (sl : Slice)
+    (hloose : sl.looseValid S = true) (hv : C01.Valid S doc) (hattrs : S.nodeAttrsOK doc = true)
+    (hrun : unplacedWfRun S doc f t sl = true) (st : Step) (h : replaceStep S doc f t sl = .ok (some st)) :
+    ∃ sl', st.sliceOf = some sl' ∧ openValid S sl'.openStart sl'.openEnd sl'.content = true :=
+  replaceStep_valid_gen S (detS_of_detB S hdet) (fillersOK_of_B S hfill) (wrapOK_of_B S hwrap) (labelsOK_of_B S hlab)
+    (PM.FromDom.leafOk_of_B S hleaf) (textStableP_of_C S hts) (closable_of_B S hcl) doc f t sl
+    (looseValid_openValid S sl hloose) hloose hv hattrs hrun st h
+
+/-- **`fit_emits_valid_payload_cut`** — the same for the slices the property quantifies over: every slice, of any open depth,
+    **cut from a valid document** (`src.slice a b`) is loosely valid (`slice_loose`, Proofs/FitOpen.lean `slice_UL`:
+    `Fragment.cut` keeps the types and marks of the nodes it cuts), so the payload of every step `replace_step` emits for
+    it is valid -/
+theorem fit_emits_valid_payload_cut (S : Schema) (hdet : detB S = true) (hfill : S.fillersOKB = true)
+    (hwrap : S.wrapOKB = true) (hlab : S.labelsOKB = true) (hleaf : PM.FromDom.leafOkB S = true)
+    (hts : textStableC S = true) (hcl : S.closableB = true) (doc : Node) (f t : Nat) (src : Node) (a b : Nat)
+    (sl : Slice) (hsrc : C01.Valid S src) (hcut : src.slice a b = .ok sl) (hv : C01.Valid S doc)
+    (hattrs : S.nodeAttrsOK doc = true) (hrun : unplacedWfRun S doc f t sl = true) (st : Step)
+    (h : replaceStep S doc f t sl = .ok (some st)) :
+    ∃ sl', st.sliceOf = some sl' ∧ openValid S sl'.openStart sl'.openEnd sl'.content = true :=
+  replaceStep_valid_UL S (detS_of_detB S hdet) (fillersOK_of_B S hfill) (wrapOK_of_B S hwrap) (labelsOK_of_B S hlab)
+    (PM.FromDom.leafOk_of_B S hleaf) (textStableP_of_C S hts) (closable_of_B S hcl) doc f t sl
+    (slice_UL S src a b sl hsrc hcut) hv hattrs hrun st h
+
+/-- a slice cut from a valid document is loosely valid (the proposition behind `Slice.looseValid`) -/
+theorem slice_loose (S : Schema) (src : Node) (a b : Nat) (sl : Slice) (hsrc : C01.Valid S src)
+    (hcut : src.slice a b = .ok sl) : UL S sl.openStart sl.openEnd sl.content :=
+  slice_UL S src a b sl hsrc hcut
+
+/-- **the document a fitted replace returns is valid, with no hypothesis on the emitted payload**: when `replace_step` answers
+    a `ReplaceStep` for a loosely valid slice and `Step.apply` returns a document, that document is valid (`recorded_valid`
+    with its payload hypothesis discharged by `fit_emits_valid_payload`) -/
+theorem fit_replace_recorded_valid (S : Schema) (hdet : detB S = true) (hfill : S.fillersOKB = true)
+    (hwrap : S.wrapOKB = true) (hlab : S.labelsOKB = true) (hleaf : PM.FromDom.leafOkB S = true)
+    (hts : textStableC S = true) (hcl : S.closableB = true) (doc : Node) (f t : Nat) (sl : Slice)
+    (hloose : sl.looseValid S = true) (hv : C01.Valid S doc) (hattrs : S.nodeAttrsOK doc = true)
+    (hrun : unplacedWfRun S doc f t sl = true) (F T : Nat) (sl' : Slice) (b : Bool)
+    (h : replaceStep S doc f t sl = .ok (some (.replace F T sl' b))) (doc' : Node)
+    (ha : S.apply (.replace F T sl' b) doc = .ok doc') : C01.Valid S doc' := by
+  obtain ⟨sl'', hs, hval⟩ := fit_emits_valid_payload S hdet hfill hwrap hlab hleaf hts hcl doc f t sl hloose hv hattrs hrun
+    _ h
+  simp only [Step.sliceOf, Option.some.injEq] at hs
+  subst hs
+  exact recorded_valid S (.replace F T sl' b) doc doc' hv hval ha
+
+/-- … and whatever a deletion records is valid: `recorded_valid` with its payload hypothesis discharged for both kinds of
+    answer (`delete_emits_payloadValid`) -/
+theorem delete_recorded_valid (S : Schema) (hdet : detB S = true) (hleaf : PM.FromDom.leafOkB S = true)
+    (doc : Node) (f t : Nat) (hv : C01.Valid S doc) (hattrs : S.nodeAttrsOK doc = true) (st : Step)
+    (h : replaceStep S doc f t Slice.empty = .ok (some st)) (doc' : Node) (ha : S.apply st doc = .ok doc') :
+    C01.Valid S doc' :=
+  recorded_valid S st doc doc' hv (delete_emits_payloadValid S hdet hleaf doc f t hv hattrs st h) ha
+
+/-- a loosely valid slice is a valid payload -/
+theorem looseValid_is_valid_payload (S : Schema) (sl : Slice) (h : sl.looseValid S = true) :
+    openValid S sl.openStart sl.openEnd sl.content = true := looseValid_openValid S sl h
+
+/-- one iteration of the loop, whatever the slice: the validity invariant `VInv` and the loose validity of the unplaced
+    slice (`UInv`) are kept, given that the unplaced slice is well-formed before the iteration -/
+theorem payloadInv_step_gen (S : Schema) (hdet : detB S = true) (hfill : S.fillersOKB = true)
+    (hwrap : S.wrapOKB = true) (hlab : S.labelsOKB = true) (hleaf : PM.FromDom.leafOkB S = true)
+    (hts : textStableC S = true) (hcl : S.closableB = true) (D g : Nat) (st : FitState) (inv : InStep st)
+    (hv : VInv S D g st.frontier st.placed) (hU : UInv S st.unplaced) (hwf : st.unplaced.wf = true)
+    (hsz : (st.unplaced.size == 0) = false) (st' : FitState) (h : fitStep S st = .ok st') :
+    (∃ g', VInv S D g' st'.frontier st'.placed) ∧ UInv S st'.unplaced :=
+  fitStep_vinv_gen S (textStableP_of_C S hts) (detS_of_detB S hdet) (fillersOK_of_B S hfill) (wrapOK_of_B S hwrap)
+    (labelsOK_of_B S hlab) (PM.FromDom.leafOk_of_B S hleaf) (closable_of_B S hcl) D g st inv hv hU hwf hsz st' h
+
+/-- the hypotheses are satisfiable on a run that opens the slice: pasting the closed paragraph `p("x")` into the paragraph
+    of `doc(p("ab"))` at position 2 (the slice is opened, its start closed by `close_node_start`, its open end pushed onto
+    the frontier: the emitted slice is `<p(), p("x"), p()>(1,1)`); and a slice open on both sides is loosely valid -/
+example :
+    let nt (name : String) (isText inl : Bool) (dfa : Array DfaState) : NodeType :=
+      { name := name, isText := isText, isInline := isText, isLeaf := isText, isAtom := isText,
+        inlineContent := inl, isolating := false, defining := false, code := false,
+        dfa := dfa, markSet := none, attrs := [] }
+    let S : Schema := { nodes := #[nt "doc" false false #[⟨false, [(1, 1)]⟩, ⟨true, [(1, 1)]⟩],
+                                   nt "paragraph" false true #[⟨true, [(2, 0)]⟩],
+                                   nt "text" true false #[⟨true, []⟩]],
+                        marks := #[], top := 0, textTy := 2 }
+    let doc := Node.elem 0 [] [] [.elem 1 [] [] [.text [97, 98] []]]
+    let sl : Slice := ⟨[.elem 1 [] [] [.text [120] []]], 0, 0⟩
+    let sl2 : Slice := ⟨[.elem 1 [] [] [.text [120] []], .elem 1 [] [] [.text [121] []]], 1, 1⟩
+    detB S = true ∧ S.fillersOKB = true ∧ S.wrapOKB = true ∧ S.labelsOKB = true ∧ PM.FromDom.leafOkB S = true ∧
+    textStableC S = true ∧ S.closableB = true ∧ S.checkNode doc = true ∧ S.nodeAttrsOK doc = true ∧
+    sl.looseValid S = true ∧ unplacedWfRun S doc 2 2 sl = true ∧ fitsTriviallyO S doc 2 2 sl = some false ∧
+    sl2.looseValid S = true := by decide +kernel
+
+/-- **`fit_no_raise_partial`** — towards `fit_no_raise` (`replaceStep ≠ .error .raises`, not proved): an iteration of the loop
+    of `fit` whose state is in step and whose unplaced slice is well-formed can fail **only inside `place_nodes`**:
+    `find_fittable` (both passes: `fill_before`, `find_wrapping`, the walks along the start spine), `open_more` and
+    `drop_node` always return (Proofs/FitNoRaise.lean).  What is missing for `fit_no_raise`: inside `place_nodes` the two
+    sites that do raise in the real code for some valid requests — `fill_before` answering `None` in `close_node_start`
+    and `content_match_at(child_count)` on the node whose open end is pushed (finding C11-fitter-partial-node) — need
+    guards on the request (`Slice.noPartialNode` for the second) carried along the run. -/
+theorem fit_no_raise_partial (S : Schema) (hdet : detB S = true) (hfill : S.fillersOKB = true) (st : FitState)
+    (hin : st.inStepB = true) (hwf : st.unplaced.wf = true) (e : FitErr) (h : fitStep S st = .error e) :
+    ∃ f, findFittable S st = .ok (some f) ∧ placeNodes S st f = .error e := by
+  simp only [FitState.inStepB, Bool.and_eq_true, Bool.not_eq_eq_eq_not, Bool.not_true, List.all_eq_true,
+    decide_eq_true_eq] at hin
+  simp only [Slice.wf, Bool.and_eq_true, decide_eq_true_eq] at hwf
+  exact fitStep_raises_in_place S (detS_of_detB S hdet) (fillersOK_of_B S hfill) st
+    (fun it hit => Option.isSome_iff_exists.1 (hin.1.2 it hit)) hwf.1 e h
+
+/-- **`fit_raise_sites`** — … and inside `place_nodes` only two computations can fail: the take loop (that is
+    `close_node_start`: `fill_before` answering `None` for the children of a start-open node, or no match over them) and
+    the pushing of the open end (`content_match_at(child_count)` on a node whose children are no matchable beginning of
+    its content: finding C11-fitter-partial-node).  Closing and opening frontier nodes, adding to `placed`, the optional
+    `close_frontier_node` and the new unplaced slice always go through. -/
+theorem fit_raise_sites (S : Schema) (hdet : detB S = true) (hfill : S.fillersOKB = true) (hwrap : S.wrapOKB = true)
+    (hlab : S.labelsOKB = true) (st : FitState) (hin : st.inStepB = true) (hwf : st.unplaced.wf = true) (e : FitErr)
+    (h : fitStep S st = .error e) :
+    ∃ f, findFittable S st = .ok (some f) ∧
+      ((∃ d fty os oec total q add, takeLoop S d fty os oec total (f.fragment st.unplaced) 0 q add = .error e) ∨
+       (∃ n fr, pushOpenEnd S n (f.fragment st.unplaced) fr = .error e)) := by
+  obtain ⟨f, hf1, hf2⟩ := fit_no_raise_partial S hdet hfill st hin hwf e h
+  refine ⟨f, hf1, ?_⟩
+  simp only [FitState.inStepB, Bool.and_eq_true, Bool.not_eq_eq_eq_not, Bool.not_true, List.all_eq_true,
+    decide_eq_true_eq] at hin
+  simp only [Slice.wf, Bool.and_eq_true, decide_eq_true_eq] at hwf
+  obtain ⟨⟨hne, hall⟩, hsp⟩ := hin
+  have inv : InStep st := by
+    refine ⟨fun it hit => Option.isSome_iff_exists.1 (hall it hit), ?_, spineR_rspineOK _ _ hsp⟩
+    intro h0
+    rw [h0] at hne
+    simp at hne
+  exact placeNodes_raise_sites S (detS_of_detB S hdet) (fillersOK_of_B S hfill) (wrapOK_of_B S hwrap)
+    (labelsOK_of_B S hlab) st inv hwf.1 f hf1 e hf2
 
 /-- **`coherent_invariant`** — the key invariant `FitState.coherentB` (with the ghost level) is an invariant
     of the loop of `fit` (Proofs/FitCoherent.lean, `Coh` = the proposition behind the Boolean):
